@@ -114,6 +114,37 @@ def run(tier):
             blocks.append((sub_key_cfg(order, g.random() < 0.8, osubs), [{"n": "Define", "mode": "handler"}] + lookups(order, osubs)))
             nsub += 1
     c.notes.append("T2: %d key tables with sub-group arguments among the ordinary ones" % nsub)
+    # T3: sub-groups inside sub-groups, every handler with its own abbreviation setting and created through either constructor:
+    #     a key is looked up by the handler that owns it, with that handler's setting (main -> group -> inner group -> flag)
+    nnest = 0
+    for t in range(24 if tier == "quick" else 400):
+        ab = [g.random() < 0.5 for _ in range(3)]
+        if t < 8:
+            ab = [bool(t & 1), bool(t & 2), bool(t & 4)]
+        flagz = arggen.new_arg("flag"); flagz["s"] = ord("Z"); flagz["l"] = T("zeta"); flagz["card"] = {"t": "none", "a": 0, "b": 0}
+        inner = {"abbr": ab[2], "endvalues": False, "hcons": [], "args": [flagz]}
+        fmt = arggen.new_arg("flag"); fmt["s"] = ord("F"); fmt["l"] = T("format"); fmt["card"] = {"t": "none", "a": 0, "b": 0}
+        fmt["kind"] = "sub"; fmt["init"] = False; fmt["subctor"] = g.choice([0, 1]); fmt["sub"] = inner
+        val = arggen.new_arg("int"); val["s"] = ord("y"); val["l"] = T("value"); val["init"] = -7; val["card"] = {"t": "none", "a": 0, "b": 0}
+        outer = {"abbr": ab[1], "endvalues": False, "hcons": [], "args": [val, fmt] if g.random() < 0.5 else [fmt, val]}
+        grp = arggen.new_arg("flag"); grp["s"] = ord("G"); grp["l"] = T("group"); grp["card"] = {"t": "none", "a": 0, "b": 0}
+        grp["kind"] = "sub"; grp["init"] = False; grp["subctor"] = g.choice([0, 1]); grp["sub"] = outer
+        num = arggen.new_arg("int"); num["s"] = ord("n"); num["l"] = T("number"); num["init"] = -1; num["card"] = {"t": "none", "a": 0, "b": 0}
+        cfg = {"abbr": ab[0], "endvalues": False, "hcons": [], "args": [num, grp], "lenient": True}
+        acts = []
+        for gk in ("-G", "--group", "--gr"):
+            for fk in ("-F", "--format", "--form", "--f"):
+                for zk in ("-Z", "--zeta", "--ze"):
+                    acts.append(eval_action([gk, fk, zk], tag={"k": "lookup"}))
+                acts.append(eval_action([gk, fk], tag={"k": "lookup"}))
+            for vk in ("--value=3", "--val=3", "-y3"):
+                acts.append(eval_action([gk, vk], tag={"k": "lookup"}))
+                acts.append(eval_action([gk, "--format", "-Z", vk], tag={"k": "lookup"}))
+        for nk in ("--number=5", "--num=5"):
+            acts.append(eval_action([nk, "-G", "--format"], tag={"k": "lookup"}))
+        blocks.append((cfg, [{"n": "Define", "mode": "handler"}] + acts))
+        nnest += len(acts)
+    c.notes.append("T3: %d command lines through nested sub-groups with per-handler abbreviation settings" % nnest)
     script2 = os.path.join(c.wd, "random.ndjson")
     write_cases(script2, blocks)
     run_script(c, exe, script2, "T")
